@@ -550,7 +550,17 @@ private:
         const auto& [t, element_location] =
             get_level_header_element(c, level_name, name);
 
-        // strict: SBE requires underlying type to be unsigned integer
+        // strict: SBE requires underlying type to be unsigned integer. Other
+        // integer types are tolerated but generated code does arithmetic on
+        // header values so floating-point types can never work
+        if((t.primitive_type == "float") || (t.primitive_type == "double"))
+        {
+            throw_error(
+                "{}: {} header element `{}` cannot be a floating-point type",
+                element_location,
+                level_name,
+                name);
+        }
 
         if(t.length != 1)
         {
